@@ -7,6 +7,8 @@ NOTE = ("verdicts are z3 4.8.12 / z3 5.1.0 / cvc5 1.0 answers over the symgo SSA
         "every bound (lengths, unwinding, allocation, shapes) is listed per obligation in the evidence and checked, not assumed; "
         "translator validated per run by replaying reachability witnesses natively and in concrete mode; ")
 CLAIMED = {
+ "C07": ("export/replicate framing: ReplicateTx(ExportTx(tx)) hands precommit the same header and entry list for every symbolic transaction within the size bounds (headers v0/v1, all metadata combinations, values present or truncated)",
+         "tx reader / value reader and the write-only transaction are harness stubs; replica-side validation, ack allowance, delivery schedules and the replicator are outside the claim for now", "DESIGN.md §4 C07"),
  "C17": ("the multi-file appendable refines one growable byte array over bounded sequences of append / set-offset / read / discard with symbolic payloads, lengths and offsets, for every chunk-boundary alignment and cache (max-open-files) size within the bounds",
          "chunks are in-memory appendables behind the real hooks interface; the single-file appendable over os.File, compression, reopen and Copy are outside the claim; reads beyond the logical end after a rewind are unspecified (neither appendable truncates on SetOffset)", "DESIGN.md §4 C17"),
  "C01": ("soundness of verification as binding obligations: Alh/entry-digest/linear-proof binding, and the client-history chain (honest prefix, one or two adversarial state advances accepted by VerifyDualProof, then a verified read of an earlier transaction) => the accepted past transaction is the honest one; all headers, digests and proof terms symbolic, ids <= 4 (quick) / 5-6 (thorough)",
